@@ -85,10 +85,16 @@ theorem spec_index_until_not_after (hs : Hist σ) (limit : Int) (i j : Nat) (hji
 
 example : (sigs (flatten [(2, Lookup.found [[(⟨10, 7⟩ : Tx Nat), ⟨11, 6⟩]]), (1, .found [[⟨12, 3⟩]])])).Nodup := by decide
 
+-- `before` = entry 0, `until` = entry 2 of a history of three: entries 1..2
+example : iterBeforeUntil [(2, Lookup.found [[(⟨10, 7⟩ : Tx Nat), ⟨11, 6⟩]]), (1, .found [[⟨12, 3⟩]])] 5 (some 10) (some 12)
+    = .ok [(2, ⟨11, 6⟩), (1, ⟨12, 3⟩)] := by rfl
+
 /-- the reader sees a record chain up to its first empty record; the writer never writes one, and then the
     visible history is the whole chain -/
 theorem visible_is_flatten {α : Type} (recs : List (List α)) (h : ∀ r ∈ recs, r ≠ []) :
     visible recs = recs.flatten := visible_eq_flatten recs h
+
+example : visible [[1, 2], [3], [], [4]] = [1, 2, 3] ∧ visible [[1, 2], [3], [4]] = [[1, 2], [3], [4]].flatten := by decide
 
 /-- **response order (repaired handler).**  When the loaded epochs are pairwise different, walking the result map
     by the epoch numbers in the order the readers were queried lists the entries exactly in slice order. -/
@@ -175,6 +181,13 @@ theorem slot_complete (hs : Hist σ) (limit : Int) (before untl : Nat)
 
 example : Desc (flatten [(2, Lookup.found [[(⟨10, 864007⟩ : Tx Nat)]]), (1, .found [[⟨11, 432005⟩], [⟨12, 432005⟩]])]) := by
   unfold Desc; decide
+
+-- the hypotheses of `slot_complete` hold for a two-epoch history, and its conclusion picks the window
+example : ∀ x ∈ flatten [(2, Lookup.found [[(⟨10, 864007⟩ : Tx Nat)]]), (1, .found [[⟨11, 432005⟩], [⟨12, 432005⟩]])],
+    x.1 * Generated.epochLen ≤ x.2.slot := by decide
+
+example : iterBeforeUntilSlot true [(2, Lookup.found [[(⟨10, 864007⟩ : Tx Nat)]]), (1, .found [[⟨11, 432005⟩], [⟨12, 432005⟩]])]
+    1 864000 432005 = .ok [(1, ⟨11, 432005⟩)] := by rfl
 
 /-- **epochs in which the address never appears are skipped**: removing such an epoch from the loaded set changes
     neither variant's answer (in particular it does not turn it into an error) … -/
